@@ -61,6 +61,23 @@ func c15Check(in c15Input) (key, what string) {
 	}); pm != "" {
 		return "c15-entry-panic", "Decorator.ParseFile / Restorer.RestoreFile panicked: " + pm
 	}
+	// the import-managing configuration of the same entry points: a decorator with the syntax-only
+	// identifier resolver on the bytes, and the import-managing restorer on the tree Parse returned
+	if pm := safely(func() {
+		g, _ := decorator.NewDecoratorWithImports(nil, "example.com/a", goastNew()).Parse(in.Src)
+		if g != nil {
+			var buf bytes.Buffer
+			decorator.NewRestorerWithImports("example.com/a", guessNew()).Fprint(&buf, g)
+		}
+	}); pm != "" {
+		return "c15-managed-panic", "NewDecoratorWithImports(goast).Parse / NewRestorerWithImports(guess).Fprint panicked: " + pm
+	}
+	if pm := safely(func() {
+		var buf bytes.Buffer
+		decorator.NewRestorerWithImports("example.com/a", guessNew()).Fprint(&buf, f)
+	}); pm != "" {
+		return "c15-managed-panic", "NewRestorerWithImports(guess).Fprint panicked on a tree Parse returned: " + pm
+	}
 	if in.Dir && c15Scratch != "" {
 		dir, e := os.MkdirTemp(c15Scratch, "c15-")
 		if e != nil {
@@ -140,6 +157,7 @@ var c15Fixed = []string{
 	"package a\n\nfunc f() {\n\tswitch x {\n\tcase true:\n\t\ta()\n\t// case false:\n\t\t// b()\n\t}\n}\n",
 	"package a\n\nfunc f() {\n\tselect {\n\tcase <-c:\n\t\ta()\n\t// commented\n\t\t\t// deeper\n",
 	"package a\n\nimport _ \"unsafe\" // for go:linkname\n",
+	"package p\nimport", "package p\nimport \"fmt\nfunc f() { fmt.P() }\n", "package p\nimport 'a'\nfunc f() { a.P() }\n", "package p\nimport a\nfunc f() { a.P() }\n", "package p\nimport \"\\z\"\nfunc f() { z.P() }\n",
 	"\xef\xbb\xbfpackage a\n", "package a\r\n\r\nfunc f() {}\r\n", "package a\n\nfunc f() { goto }\n", "package a\n\nvar = \n", "package a\n\ntype T struct { x }}}}\n",
 }
 
